@@ -161,12 +161,10 @@ static void FuncFIRSTBIT(TempResult* pResult, TempResult const* pArgs, unsigned 
     UNUSED(ArgCnt);
 
     out = 0;
-    do {
-        if (!Odd(in)) {
-            out++;
-        }
+    while ((out < LARGEBITS) && !Odd(in)) {
+        out++;
         in >>= 1;
-    } while ((out < LARGEBITS) && !Odd(in));
+    }
     as_tempres_set_int(pResult, (out >= LARGEBITS) ? -1 : out);
 }
 
